@@ -32,6 +32,11 @@ def uintInRange (w : Nat) (v : Nat) : Bool := v ≤ 2^(8*w) - 1
 def validWidthInt (w : Nat) : Bool := w == 1 || w == 2 || w == 4 || w == 8
 def validWidthFloat (w : Nat) : Bool := w == 4 || w == 8
 
+/-- Go map lookup of an unknown key reads 0 -/
+def optWidth : Option Fmt → Nat
+  | some f => f.width
+  | none => 0
+
 /-- generic array factory: convert each argument (`none` = panic), then checkRep. -/
 def mkSlots {α} (conv : GoVal → Option α) : List GoVal → Option (List (Slot α))
   | [] => some []
@@ -58,7 +63,7 @@ def convInt : GoVal → Option Int
   | _ => none
 
 def mkInt (w : Nat) (args : List GoVal) : Option Tmpl :=
-  let width := match intFmt? w with | some f => f.width | none => 0
+  let width := optWidth (intFmt? w)
   if args.length * width > maxByteSize then none else
   match mkSlots convInt args with
   | none => none
@@ -71,7 +76,7 @@ def convUint : GoVal → Option Nat
   | _ => none
 
 def mkUint (w : Nat) (args : List GoVal) : Option Tmpl :=
-  let width := match uintFmt? w with | some f => f.width | none => 0
+  let width := optWidth (uintFmt? w)
   if args.length * width > maxByteSize then none else
   match mkSlots convUint args with
   | none => none
@@ -94,7 +99,7 @@ def floatStore (w : Nat) (b64 : Nat) : Option Nat :=
   else some b64
 
 def mkFloat (w : Nat) (args : List GoVal) : Option Tmpl :=
-  let width := match floatFmt? w with | some f => f.width | none => 0
+  let width := optWidth (floatFmt? w)
   if args.length * width > maxByteSize then none else
   if !validWidthFloat w then none else
   match mkSlots (fun g => (convFloat64 g).bind (fun b => some (floatStore w b))) args with
